@@ -1,6 +1,24 @@
 """Which theorem files and which correspondence streams decide which property."""
 import streams as S
 
+SYS_TRUST = ["harness/core orchestrator (threads parked at the fastrace_verif yield points), generators, canonicalisation",
+             "the fastrace_verif hooks add scheduling points and observers only",
+             "modelled, not verified: rtrb ring as an atomic FIFO with is_abandoned, fastant clock as a logical clock, "
+             "parking_lot mutexes as mutual exclusion, HashMap order (reports compared as sorted lists)"]
+
+def sysprop(coq, profiles, quick_n, thorough_n, rule, assumptions=None, release_too=False):
+    streams = [S.sys_stream_for("sys", profiles, quick_n, thorough_n)]
+    if release_too:
+        streams.append(S.sys_stream_for("sysrel", profiles[:2], max(2, quick_n // 3), thorough_n // 2, release=True, shards_per_profile=4))
+    return {"coq": coq, "streams": streams, "replay_sub": "sys", "rule": rule,
+            "trusted_base": SYS_TRUST, "assumptions": assumptions or []}
+
+GEN_RULE = ("histories generated online from one PRNG state per history: weighted grammar over the span API "
+            "(roots sampled/unsampled with boundary ids, children with 0-3 parents incl. no-op, local scopes, local "
+            "collectors, properties/events by every route with closures that re-enter, cancel, adapters, thread "
+            "spawn/exit) interleaved with single ring pushes and collector micro-steps (begin/pop/check/process); "
+            "profile-specific capacities; a history is non-trivial if it has >= 6 actions; distinct by action text")
+
 PROPS = {
     "C12": {
         "coq": ["C12", "C12_consts"],
@@ -13,4 +31,8 @@ PROPS = {
         "assumptions": ["std's integer parsing/formatting is re-modelled (Model/Codec.v), not verified",
                         "absence of panics is checked by catch_unwind on every generated input, not proved"],
     },
+    "C03": sysprop(["C03"], ["cancelable", "adapters", "exit"], 6, 120, GEN_RULE),
+    "C04": sysprop(["C04"], ["cancelable", "default", "overload"], 6, 120, GEN_RULE),
+    "C08": sysprop(["C08"], ["mixed", "exit", "cancelable"], 6, 120, GEN_RULE),
+    "C09": sysprop(["C09"], ["overload", "mixed"], 8, 150, GEN_RULE),
 }
